@@ -48,7 +48,7 @@ func (dw *DeltaSelector) ObjectsToPack(
 	hashes []plumbing.Hash,
 	packWindow uint,
 ) ([]*ObjectToPack, error) {
-	otp, err := dw.objectsToPack(hashes, packWindow)
+	otp, err := dw.objectsToPack(uniqueHashes(hashes), packWindow)
 	if err != nil {
 		return nil, err
 	}
@@ -90,6 +90,23 @@ func (dw *DeltaSelector) ObjectsToPack(
 	}
 
 	return otp, nil
+}
+
+// uniqueHashes drops repeated hashes, keeping the first occurrence of each.
+// A pack holds every object once: git index-pack --strict and git
+// verify-pack reject a pack in which the same object appears twice.
+func uniqueHashes(hashes []plumbing.Hash) []plumbing.Hash {
+	seen := make(map[plumbing.Hash]struct{}, len(hashes))
+	unique := make([]plumbing.Hash, 0, len(hashes))
+	for _, h := range hashes {
+		if _, ok := seen[h]; ok {
+			continue
+		}
+		seen[h] = struct{}{}
+		unique = append(unique, h)
+	}
+
+	return unique
 }
 
 func (dw *DeltaSelector) objectsToPack(
